@@ -541,6 +541,13 @@ func (n *Nodis) Scan(cursor int64, match string, count int64, typ ds.ValueType) 
 		defer meta.commit()
 		matched, _ := filepath.Match(match, key)
 		if matched && !m.expired(now) {
+			if typ != 0 && m.valueType == ds.None && m.value == nil {
+				// a record created when the storage was opened does not know its type until
+				// its value has been loaded once
+				if v, err := n.store.ss.Get(m.key); err == nil {
+					m.setValue(v)
+				}
+			}
 			if typ != 0 && m.valueType != typ {
 				return true
 			}
